@@ -53,7 +53,8 @@ Cfgs == {c \in [op : Ops, plat : Platforms, any_pin : BOOLEAN, no_unlock : BOOLE
             /\ (c.outfile => (c.op = "pubkeys" \/ (c.op = "onboard" /\ c.plat = "ledger")))}
 
 Env0 == [pinc |-> "?", mode |-> "?", onb |-> "?", echo |-> "?", answers |-> "?", retry |-> "?",
-         wipe |-> "?", unlock |-> "?", newpin |-> "?", mode2 |-> "?", keys |-> "?", pre |-> "?"]
+         wipe |-> "?", unlock |-> "?", newpin |-> "?", mode2 |-> "?", keys |-> "?", pre |-> "?",
+         link |-> "?", linkat |-> "?"]
 
 \* what already sits at the output path(s) when the command comes to write (see AdminProps)
 PrePubkeys == {"absent", "same", "other", "extra", "fewer", "notjson", "dir", "dirjson"}
@@ -350,7 +351,41 @@ WriteFiles ==
                  ELSE Done /\ files' = Fresh
     /\ UNCHANGED <<cfg, dev, pin>>
 
-Next == Validate \/ AskMode \/ AskOnb \/ Echo \/ Confirm \/ GetPin \/ GenSeed \/ SendSeed
+(***************************************************************************)
+(* The link.  At every gating exchange the environment may, once per run,  *)
+(* let the link fail instead of answering in time: "lost" = time-out, the  *)
+(* answer never arrives; "late" = time-out, the answer arrives afterwards  *)
+(* and stays queued on the open handle (whoever goes on using that handle  *)
+(* reads its predecessor's answers); "err" = read / write error.  The      *)
+(* commands give up there.  (Exchanges sent in groups - seed bytes, PIN    *)
+(* bytes, the six key queries - fail at one member of the group, chosen by *)
+(* the harness.)                                                           *)
+(***************************************************************************)
+LinkCls(p) == IF p \in {"mode", "mode2"} THEN "get_mode"
+              ELSE IF p = "onb" THEN "is_onboard"
+              ELSE IF p = "echo" THEN "echo"
+              ELSE IF p = "sendseed" THEN "seed_byte"
+              ELSE IF p \in {"onbpin", "sendpin", "sendnewpin"} THEN "pin_byte"
+              ELSE IF p = "wipe" THEN "wipe"
+              ELSE IF p = "sgxonboard" THEN "sgx_onboard"
+              ELSE IF p = "unlock" THEN "unlock"
+              ELSE IF p = "change" THEN "change_pin"
+              ELSE "get_pubkey"
+LinkPcs == {"mode", "mode2", "onb", "echo", "sendseed", "onbpin", "sendpin", "sendnewpin", "wipe",
+            "sgxonboard", "unlock", "change", "getkeys"}
+
+LinkFault ==
+    /\ pc \in LinkPcs /\ env.link = "?"
+    /\ ~(cfg.plat = "sgx" /\ pc \in {"sendpin", "sendnewpin"})       \* SGX: the PIN travels with the command
+    /\ \E k \in {"lost", "late", "err"} :
+         /\ env' = [env EXCEPT !.link = k, !.linkat = pc]
+         /\ Emit(<<IF pc = "sgxonboard" THEN ED("sgx_onboard", dev, "x", <<0>> \o SeedRep \o pin)
+                   ELSE IF cfg.plat = "sgx" /\ pc \in {"unlock", "change"}
+                        THEN ED(LinkCls(pc), dev, "x", <<0>> \o pin)
+                   ELSE E(LinkCls(pc), dev, "na", "x")>>)
+    /\ Fail /\ UNCHANGED <<cfg, dev, files, pin>>
+
+Next == LinkFault \/ Validate \/ AskMode \/ AskOnb \/ Echo \/ Confirm \/ GetPin \/ GenSeed \/ SendSeed
         \/ SendOnbPin \/ Wipe \/ SgxOnboard \/ PostUnlock \/ Attest \/ SendPin \/ Unlock
         \/ ExitMenu \/ AskMode2 \/ GetNewPin \/ SendNewPin \/ ChangePin \/ GetKeys \/ WriteFiles
 Spec == Init /\ [][Next]_vars
@@ -370,6 +405,7 @@ NeverOnboards   == ~(Terminal /\ cfg.op = "onboard" /\ outcome = "ok")
 NeverUnlocks    == ~(Terminal /\ cfg.op = "unlock" /\ outcome = "ok")
 NeverChanges    == ~(Terminal /\ cfg.op = "changepin" /\ outcome = "ok")
 NeverWritesKeys == ~(Terminal /\ cfg.op = "pubkeys" /\ outcome = "ok" /\ files.txt # <<>>)
+NeverLinkFault  == env.link = "?"
 NeverAnyPin     == ~(Terminal /\ obs.wipes + obs.changes > 0 /\ ~Policy(pin))
 
 View == <<pc, cfg, env, dev, obs, outcome, files, pin>>
